@@ -10,5 +10,6 @@ tools/stage.sh "$D"
 cd "$D/m"
 go test -c -tags verif -vet=off -o "$D/a.test" ./verifh
 go test -c -tags verif -vet=off -o "$D/b.test" ./internal/geom
+go test -c -tags verif -vet=off -o "$D/d.test" ./internal/phase3
 go test -c -tags verif -vet=off -race -o "$D/c.test" ./verifh
 echo "setup ok"
